@@ -112,6 +112,40 @@ def run_cvc5(obl, timeout_s):
             pass
 
 
+def run_z3cli_ematch(obl, budget_s):
+    """z3 (the z3-solver wheel's CLI) with model-based quantifier instantiation off, under a deterministic resource limit.
+    Only `unsat` is used (without MBQI a `sat` is not a model).  The CLI is used because the same query through the python API
+    behaves differently (measured: 40 s / 78 M units on the CLI, no answer after 20 min through the API)."""
+    import shutil
+    exe = shutil.which('z3-new') or shutil.which('z3')
+    if not exe:
+        return 'unknown', 0
+    txt = smt2_of(obl)
+    with tempfile.NamedTemporaryFile('w', suffix='.smt2', delete=False, dir=os.environ.get('VK_TMP', None)) as f:
+        f.write(txt)
+        path = f.name
+    try:
+        p = subprocess.run([exe, '-st', 'smt.mbqi=false', 'smt.random_seed=0', 'rlimit=%d' % int(budget_s * RL_PER_S), '-T:%d' % int(budget_s * 6), path],
+                           capture_output=True, text=True, timeout=budget_s * 6 + 10)
+        out = (p.stdout or '').strip().splitlines()
+        v = out[0].strip() if out else 'unknown'
+        rl = 0
+        for l in out:
+            if ':rlimit-count' in l:
+                try:
+                    rl = int(l.split()[-1].rstrip(')'))
+                except ValueError:
+                    pass
+        return (v if v == 'unsat' else 'unknown'), rl
+    except Exception:
+        return 'unknown', 0
+    finally:
+        try:
+            os.unlink(path)
+        except OSError:
+            pass
+
+
 def discharge(obls, timeout=20, procs=16, seed=0, on_model=None, use_cvc5=True, retry_timeout=90, progress=None, want_hash=False, hints=None):
     """returns list of Result aligned with obls.  Every obligation has a plan = list of rungs (backend, budget) tried in order until
     one answers sat/unsat: z3 on the ground fragment, z3, cvc5, z3 with the long budget.  `hints` (obligation id -> backend that
@@ -136,6 +170,9 @@ def discharge(obls, timeout=20, procs=16, seed=0, on_model=None, use_cvc5=True, 
             if use_cvc5:
                 plan.append(('cvc5', timeout * 3))      # wall-clock (cvc5 has no usable resource limit); it closes what z3's E-matching leaves open
             if retry_timeout:
+                # E-matching only (model-based quantifier instantiation off): closes the invariant-preservation VCs with many quantified
+                # hypotheses on which MBQI diverges (pdag_to_dag: 41 s vs unknown after 300 s)
+                plan.append(('z3:ematch', retry_timeout))
                 plan.append(('z3:long', retry_timeout))
             h = hints.get(o.id)
             if h == 'open' and not want_hash:
@@ -162,6 +199,9 @@ def discharge(obls, timeout=20, procs=16, seed=0, on_model=None, use_cvc5=True, 
                         out = _solve(obls[i], tmo, seed, None, ground_only=True, want_hash=want_hash)
                         if out['verdict'] != 'unsat':
                             out = {'verdict': 'unknown', 'reason': 'ground fragment inconclusive', 'rl': out.get('rl', 0)}
+                    elif backend == 'z3:ematch':
+                        v, rl = run_z3cli_ematch(obls[i], tmo)
+                        out = {'verdict': v, 'reason': '' if v == 'unsat' else 'e-matching inconclusive', 'rl': rl}
                     else:
                         out = _solve(obls[i], tmo, seed, on_model, want_hash=want_hash)
             except BaseException as e:
@@ -192,7 +232,7 @@ def discharge(obls, timeout=20, procs=16, seed=0, on_model=None, use_cvc5=True, 
                     running[fd] = (pid, i, t0, tmo, be, buf + chunk)
                     continue
                 done = True
-            elif now - t0 > (tmo * 3 + 10 if be != 'cvc5' else tmo + 8):
+            elif now - t0 > (tmo * 6 + 20 if be == 'z3:ematch' else tmo * 3 + 10 if be != 'cvc5' else tmo + 8):
                 try:
                     os.kill(pid, signal.SIGKILL)
                 except OSError:
